@@ -50,11 +50,6 @@ def slotsBelowAll (n : Nat) : List Expr → Bool
   | e :: es => slotsBelow n e && slotsBelowAll n es
 end
 
-def Insn.isDelegate : Insn → Bool
-  | .delegate _ _ _ => true
-  | _ => false
-
-def noDeleg (code : List Insn) : Bool := code.all fun i => !i.isDelegate
 
 theorem noDeleg_append (a b : List Insn) : noDeleg (a ++ b) = (noDeleg a && noDeleg b) := by
   simp [noDeleg, List.all_append]
